@@ -167,6 +167,8 @@ def run_program(env, n, prog):
             B = block_unitary(env, comp[2], idx)
             c.add(lw.Unitary(B), comp[1])
             ref.append(("um", comp[1], B))
+        if idx < len(prog) - 1:
+            c.U_full        # the matrix is also read between construction steps: a later step must be reflected by the next read (no stale compiled circuit)
     return c, ref
 
 
